@@ -1775,7 +1775,7 @@ func c18ClientAddresses(p *Prog, r *Report, rule string) {
 // size of 2^63-63 or more makes that shift 64 — a ZERO-length ring that panics (index out of range) on the
 // first authenticated UDP packet; sizes above 2^54 panic in makeslice when the first session is created.
 // The option is a plain uint64 in the configuration, so the loader must refuse sizes the constructor cannot
-// honour: every constructor call in package service that is given the configured size lies behind the
+// honour: every call from package service into package ss2022 that is given a configured uint64 option (the filter size is the only one) lies behind the
 // "not greater than K" edge of a comparison of that field with a constant K <= 2^40.
 func c18FilterSize(p *Prog, r *Report, rule string) {
 	pkg := p.Pkg("service")
@@ -1789,9 +1789,6 @@ func c18FilterSize(p *Prog, r *Report, rule string) {
 			}
 			sig := cs.Fn.Type().(*types.Signature)
 			for i := 0; i < sig.Params().Len() && i < len(cs.Call.Args); i++ {
-				if !strings.Contains(strings.ToLower(sig.Params().At(i).Name()), "filtersize") && sig.Params().At(i).Name() != "size" {
-					continue
-				}
 				if b, ok := sig.Params().At(i).Type().Underlying().(*types.Basic); !ok || b.Kind() != types.Uint64 {
 					continue
 				}
